@@ -11,6 +11,7 @@ CONSTANTS Docs,        \* sequence of documents
           Zones,       \* sequence of TZ values
           Langs,       \* sequence of LANG values ("" = unset)
           Part,       \* "all" | "clean_stdout" | "stdout": the part of the option space to emit
+          Currents,    \* subset of {"given", "omit", "garbage"}: how --time-limited-current is passed
           OmitAll      \* TRUE: all options with defaults are omitted (Docs must use the default spelling)
 
 VARIABLES o, done
@@ -22,10 +23,11 @@ Next ==
   /\ ~done /\ done' = TRUE
   /\ \E d \in 1..Len(Docs), inp \in {"file", "stdin"}, outp \in {"stdout", "file", "same"},
         m \in Modes, via \in {"flags", "file", "both", "none"}, z \in 1..Len(Zones), lg \in 1..Len(Langs),
-        zm \in {0, 540, -480} :
+        zm \in {0, 540, -480}, cur \in Currents :
        /\ (outp = "same" => inp = "file")
+       /\ (cur # "given" => zm = 0)
        /\ o' = [d |-> d, inp |-> inp, outp |-> outp, mode |-> m[1], json |-> m[2], via |-> via, tz |-> Zones[z],
-                lang |-> Langs[lg], zm |-> zm]
+                lang |-> Langs[lg], zm |-> zm, cur |-> cur]
 
 InSlice == \/ Part = "all"
            \/ Part = "clean_stdout" /\ o.mode = "clean" /\ o.outp = "stdout" /\ o.via = "none" /\ o.inp = "file"
@@ -46,10 +48,11 @@ LibOp == IF o.mode = "clean" THEN "clean"
 
 EmitAll == (done /\ InSlice) =>
   EmitRec([id |-> "", src |-> Docs[o.d],
-           ops |-> <<[op |-> "config", targets |-> Effective],
+           ops |-> <<IF o.cur = "given" THEN [op |-> "config", targets |-> Effective]
+                     ELSE [op |-> "config", targets |-> Effective, now |-> "wall"],
                      [op |-> LibOp],
                      [op |-> "cli", input |-> o.inp, output |-> o.outp, mode |-> o.mode, json |-> o.json,
-                      targets_via |-> o.via, tz |-> o.tz, lang |-> o.lang, now_zone_min |-> o.zm,
+                      targets_via |-> o.via, current |-> o.cur, tz |-> o.tz, lang |-> o.lang, now_zone_min |-> o.zm,
                       file_targets |-> FileTargets, flag_targets |-> FlagTargets,
                       omit |-> IF OmitAll THEN <<"ds", "de", "tl", "rm", "off">> ELSE <<>>]>>])
 =============================================================================
